@@ -118,48 +118,45 @@ def isOctal (c : Char) : Bool := '0' ≤ c && c ≤ '7'
     escape outside this model (octal, `\N{…}`). -/
 def evalBody : List Char → Option (List Char × List Char)
   | [] => none
-  | c :: rest =>
-    if c == '"' then
+  | '"' :: '"' :: '"' :: rest => some ([], rest)
+  | '\\' :: [] => none
+  | '\\' :: e :: rest =>
+    if e == '\n' then evalBody rest                                    -- line continuation
+    else if e == '\\' || e == '\'' || e == '"' then (evalBody rest).map fun (v, r) => (e :: v, r)
+    else if e == 'n' then (evalBody rest).map fun (v, r) => ('\n' :: v, r)
+    else if e == 't' then (evalBody rest).map fun (v, r) => ('\t' :: v, r)
+    else if e == 'r' then (evalBody rest).map fun (v, r) => ('\r' :: v, r)
+    else if e == 'a' then (evalBody rest).map fun (v, r) => ('\x07' :: v, r)
+    else if e == 'b' then (evalBody rest).map fun (v, r) => ('\x08' :: v, r)
+    else if e == 'f' then (evalBody rest).map fun (v, r) => ('\x0c' :: v, r)
+    else if e == 'v' then (evalBody rest).map fun (v, r) => ('\x0b' :: v, r)
+    else if e == 'x' then
       match rest with
-      | '"' :: '"' :: rest' => some ([], rest')
-      | _ => (evalBody rest).map fun (v, r) => (c :: v, r)
-    else if c == '\\' then
+      | a :: b :: r2 =>
+        match hexVals [a, b] with
+        | some n => (evalBody r2).map fun (v, r) => (Char.ofNat n :: v, r)
+        | none => none
+      | _ => none
+    else if e == 'u' then
       match rest with
-      | [] => none
-      | e :: rest' =>
-        if e == '\n' then evalBody rest'                                  -- line continuation
-        else if e == '\\' || e == '\'' || e == '"' then (evalBody rest').map fun (v, r) => (e :: v, r)
-        else if e == 'n' then (evalBody rest').map fun (v, r) => ('\n' :: v, r)
-        else if e == 't' then (evalBody rest').map fun (v, r) => ('\t' :: v, r)
-        else if e == 'r' then (evalBody rest').map fun (v, r) => ('\r' :: v, r)
-        else if e == 'a' then (evalBody rest').map fun (v, r) => ('\x07' :: v, r)
-        else if e == 'b' then (evalBody rest').map fun (v, r) => ('\x08' :: v, r)
-        else if e == 'f' then (evalBody rest').map fun (v, r) => ('\x0c' :: v, r)
-        else if e == 'v' then (evalBody rest').map fun (v, r) => ('\x0b' :: v, r)
-        else if e == 'x' then
-          match rest' with
-          | a :: b :: r2 =>
-            match hexVals [a, b] with
-            | some n => (evalBody r2).map fun (v, r) => (Char.ofNat n :: v, r)
-            | none => none
-          | _ => none
-        else if e == 'u' then
-          match rest' with
-          | a :: b :: c2 :: d :: r2 =>
-            match hexVals [a, b, c2, d] with
-            | some n => (evalBody r2).map fun (v, r) => (Char.ofNat n :: v, r)
-            | none => none
-          | _ => none
-        else if e == 'U' then
-          match rest' with
-          | a :: b :: c2 :: d :: e2 :: f :: g :: h :: r2 =>
-            match hexVals [a, b, c2, d, e2, f, g, h] with
-            | some n => (evalBody r2).map fun (v, r) => (Char.ofNat n :: v, r)
-            | none => none
-          | _ => none
-        else if isOctal e || e == 'N' then none                           -- outside this model
-        else (evalBody rest').map fun (v, r) => ('\\' :: e :: v, r)        -- unknown escape: kept
-    else (evalBody rest).map fun (v, r) => (c :: v, r)
+      | a :: b :: c2 :: d :: r2 =>
+        match hexVals [a, b, c2, d] with
+        | some n => (evalBody r2).map fun (v, r) => (Char.ofNat n :: v, r)
+        | none => none
+      | _ => none
+    else if e == 'U' then
+      match rest with
+      | a :: b :: c2 :: d :: e2 :: f :: g :: h :: r2 =>
+        match hexVals [a, b, c2, d, e2, f, g, h] with
+        | some n => (evalBody r2).map fun (v, r) => (Char.ofNat n :: v, r)
+        | none => none
+      | _ => none
+    else if isOctal e || e == 'N' then none                             -- outside this model
+    else (evalBody rest).map fun (v, r) => ('\\' :: e :: v, r)          -- unknown escape: kept
+  -- the tokenizer reads source lines with universal newlines: a raw CR or CRLF is a `\n`
+  | '\r' :: '\n' :: rest => (evalBody rest).map fun (v, r) => ('\n' :: v, r)
+  | '\r' :: rest => (evalBody rest).map fun (v, r) => ('\n' :: v, r)
+  | c :: rest => (evalBody rest).map fun (v, r) => (c :: v, r)
 
 /-- Value of a complete literal `"""…"""` (nothing may follow the closing quotes). -/
 def evalTripleQuoted : List Char → Option (List Char)
